@@ -150,6 +150,8 @@ macro_rules! dispatch_n {
             14 => $f::<14>($($arg),*),
             15 => $f::<15>($($arg),*),
             16 => $f::<16>($($arg),*),
+            17 => $f::<17>($($arg),*),
+            32 => $f::<32>($($arg),*),
             _ => panic!("harness: unsupported N"),
         }
     };
@@ -175,4 +177,21 @@ pub fn load_graph(n: usize, p: &Path) -> Result<Box<dyn G>> {
 
 pub fn hex_of(bytes: &[u8]) -> Hex {
     Hex::from_slice(bytes)
+}
+
+/// The datum handed to put(): the same bytes in a representation chosen by the bytes
+/// themselves (a pure function of the call): canonical, heap `Vector` even when short,
+/// inline array with non-zero padding, or built through from_vec.
+pub fn hex_arg(bytes: &[u8]) -> Hex {
+    let sel = bytes.iter().fold(bytes.len(), |a, b| a.wrapping_mul(31).wrapping_add(*b as usize)) % 5;
+    match sel {
+        0 => Hex::Vector(bytes.to_vec()),
+        1 if bytes.len() <= 8 => {
+            let mut a = [0xEEu8; 8];
+            a[..bytes.len()].copy_from_slice(bytes);
+            Hex::Bytes(a, bytes.len())
+        }
+        2 => Hex::from_vec(bytes.to_vec()),
+        _ => Hex::from_slice(bytes),
+    }
 }
